@@ -1,3 +1,475 @@
-"""placeholder replaced below"""
-def run_for_property(pid, ctx):
-    return None
+"""Self-validation of the checker (thorough tier): mutation adequacy and benign twins.
+
+Every seeded edit is computed on the syntax tree of the CURRENT /repo source (located by qualified
+construct, never by line or text offset), written to a scratch copy under $TMPDIR, and the property's
+check is re-run with QV_REPO pointing at the copy.  A seeded edit must add a finding (exit 1) in the
+property it targets; a benign twin must add none and must not make the analysis undecided.  Scratch
+copies are removed before returning, also on failure.  A self-check failure is an ANALYSIS-ERROR.
+"""
+from __future__ import annotations
+
+import ast
+import copy
+import os
+import shutil
+import subprocess
+import sys
+import tempfile
+from concurrent.futures import ThreadPoolExecutor
+from typing import Callable, Dict, List, Optional, Tuple
+
+from .core import AnchorError, norm, repo_root
+
+HERE = os.path.dirname(os.path.dirname(os.path.abspath(__file__)))
+
+
+# --------------------------------------------------------------------------------------------- AST edit helpers
+
+
+def find_def(tree: ast.Module, path: str):
+    """'Class.method.nested' -> node"""
+    cur = tree
+    for part in path.split("."):
+        nxt = None
+        for n in ast.walk(cur) if cur is tree else ast.iter_child_nodes(cur):
+            pass
+        body = cur.body
+        stack = list(body)
+        while stack:
+            s = stack.pop(0)
+            if isinstance(s, (ast.FunctionDef, ast.ClassDef)) and s.name == part:
+                nxt = s
+                break
+            if isinstance(s, (ast.If, ast.Try, ast.For, ast.While, ast.With)):
+                stack = list(getattr(s, "body", [])) + list(getattr(s, "orelse", [])) + stack
+        if nxt is None:
+            raise KeyError(path)
+        cur = nxt
+    return cur
+
+
+class Rewrite(ast.NodeTransformer):
+    def __init__(self, pred: Callable[[ast.AST], bool], repl: Callable[[ast.AST], object], limit: int = 1):
+        self.pred, self.repl, self.limit, self.count = pred, repl, limit, 0
+
+    def generic_visit(self, node):
+        node = super().generic_visit(node)
+        return node
+
+    def visit(self, node):
+        node = super().visit(node)
+        if isinstance(node, ast.AST) and self.count < self.limit and self.pred(node):
+            self.count += 1
+            return self.repl(node)
+        return node
+
+
+def rewrite_in(tree: ast.Module, path: Optional[str], pred, repl, limit=1) -> int:
+    target = find_def(tree, path) if path else tree
+    rw = Rewrite(pred, repl, limit)
+    new = rw.visit(target)
+    return rw.count
+
+
+def is_rev_slice(n) -> bool:
+    return (
+        isinstance(n, ast.Subscript)
+        and isinstance(n.slice, ast.Slice)
+        and n.slice.lower is None
+        and n.slice.upper is None
+        and isinstance(n.slice.step, ast.UnaryOp)
+        and isinstance(n.slice.step.op, ast.USub)
+    )
+
+
+def call_named(n, name: str) -> bool:
+    return isinstance(n, ast.Call) and norm(n.func).split(".")[-1] == name
+
+
+def parse_expr(s: str):
+    return ast.parse(s, mode="eval").body
+
+
+def parse_stmt(s: str):
+    return ast.parse(s).body[0]
+
+
+# --------------------------------------------------------------------------------------------- catalogue
+
+M = []  # (id, [props], relpath, description, edit(tree) -> int applied)
+
+
+def mut(mid, props, rel, desc):
+    def deco(fn):
+        M.append((mid, props, rel, desc, fn))
+        return fn
+    return deco
+
+
+def drop_rev(path, nth=0):
+    def edit(tree):
+        seen = [0]
+
+        def pred(n):
+            if is_rev_slice(n):
+                seen[0] += 1
+                return seen[0] - 1 == nth
+            return False
+
+        return rewrite_in(tree, path, pred, lambda n: n.value, limit=1)
+    return edit
+
+
+def replace_call_by_arg(path, fname):
+    return lambda tree: rewrite_in(tree, path, lambda n: call_named(n, fname) and len(n.args) >= 1, lambda n: n.args[0])
+
+
+def replace_expr(path, old_src, new_src, limit=1):
+    old_n = norm(parse_expr(old_src))
+    return lambda tree: rewrite_in(tree, path, lambda n: isinstance(n, ast.expr) and norm(n) == old_n, lambda n: parse_expr(new_src), limit)
+
+
+def replace_stmt(path, old_src, new_src):
+    old_n = norm(parse_stmt(old_src))
+
+    def edit(tree):
+        return rewrite_in(tree, path, lambda n: isinstance(n, ast.stmt) and norm(n) == old_n, lambda n: parse_stmt(new_src) if new_src else ast.Pass())
+    return edit
+
+
+# ---- A1 effects
+mut("fx-copy-alias", ["C14", "C10"], "qlasskit/qcircuit/qcircuit.py", "vanilla copy shares the gate list")(replace_expr("QCircuit.copy", "copy.deepcopy(self.gates)", "self.gates"))
+mut("fx-add-inplace", ["C14", "C10"], "qlasskit/qcircuit/qcircuit.py", "__add__ works on self instead of a copy")(replace_expr("QCircuit.__add__", "copy.deepcopy(self)", "self"))
+mut("fx-bind-nocopy", ["C08", "C10"], "qlasskit/qlassfun.py", "bind edits the stored tree")(replace_expr("UnboundQlassf.bind", "copy.deepcopy(self.fun_ast)", "self.fun_ast"))
+mut("fx-decopt-inplace", ["C12", "C10"], "qlasskit/decompiler/decopt.py", "optimizer splices into its argument")(lambda t: replace_stmt("circuit_boolean_optimizer", "qc = qc.copy(True)", "")(t) and replace_expr("circuit_boolean_optimizer", "qc.copy(True)", "qc")(t))
+mut("fx-default-stored", ["C10"], "qlasskit/decompiler/decompiler.py", "mutable default stored in the object")(replace_stmt("DecompilerResults.__init__", "self.sections: List[DecompiledSection] = []", "self.sections: List[DecompiledSection] = sections"))
+mut("fx-grover-nocopy", ["C15", "C10"], "qlasskit/algorithms/grover.py", "Grover edits the oracle's own circuit")(replace_expr("Grover.__init__", "self.oracle.circuit().copy()", "self.oracle.circuit()"))
+mut("fx-format-inplace", ["C05", "C10"], "qlasskit/types/__init__.py", "format_outcome extends its argument")(replace_stmt("format_outcome", "out = out + [False] * (out_len - len(out))", "out += [False] * (out_len - len(out))"))
+mut("fx-bindfun-inplace", ["C07", "C10"], "qlasskit/ast2logic/env.py", "bind_function renames the given Arg objects")(
+    lambda t: rewrite_in(t, "Env.bind_function.arg_rename", lambda n: isinstance(n, ast.Return), lambda n: [parse_stmt("a.name = f'{deff[0]}_{a.name}'"), parse_stmt("return a")])
+)
+
+
+@mut("fx-module-cache", ["C09", "C10"], "qlasskit/types/__init__.py", "constant inference memoised in a module-level dict")
+def _m_cache(tree):
+    fn = find_def(tree, "const_to_qtype")
+    idx = tree.body.index(fn)
+    tree.body.insert(idx, parse_stmt("_CACHE = {}"))
+    fn.body.insert(0, ast.parse("if value in _CACHE:\n    return _CACHE[value]").body[0])
+    n = rewrite_in(tree, "const_to_qtype", lambda x: isinstance(x, ast.Return) and norm(x.value) == "det_type.const(value)", lambda x: [parse_stmt("_CACHE[value] = det_type.const(value)"), parse_stmt("return _CACHE[value]")])
+    return n
+
+
+# ---- A2 orientation
+mut("or-qint-tobool", ["C09"], "qlasskit/types/qint.py", "QintImp.to_bool not reversed")(drop_rev("QintImp.to_bool"))
+mut("or-qint-frombool", ["C09"], "qlasskit/types/qint.py", "QintImp.from_bool not reversed")(drop_rev("QintImp.from_bool"))
+mut("or-qint-const", ["C09"], "qlasskit/types/qint.py", "QintImp.const not reversed")(drop_rev("QintImp.const"))
+mut("or-qchar-frombool", ["C09"], "qlasskit/types/qchar.py", "Qchar.from_bool not reversed")(drop_rev("Qchar.from_bool"))
+mut("or-qfixed-repr", ["C09"], "qlasskit/types/qfixed.py", "_to_qint_repr fraction not reversed")(drop_rev("QfixedImp._to_qint_repr"))
+mut("or-qfixed-tobool", ["C09"], "qlasskit/types/qfixed.py", "Qfixed.to_bool reversed before stripping the prefix")(
+    replace_expr("QfixedImp.to_bool", "bin_to_bool_list(bin(int(self.value) % 2 ** self.BIT_SIZE_INTEGER), self.BIT_SIZE_INTEGER)[::-1]", "bin_to_bool_list(bin(int(self.value) % 2 ** self.BIT_SIZE_INTEGER)[::-1], self.BIT_SIZE_INTEGER)")
+)
+mut("or-encode", ["C05"], "qlasskit/qlassfun.py", "encode_input not reversed")(drop_rev("QlassF.encode_input"))
+mut("or-interpret", ["C05", "C09"], "qlasskit/types/__init__.py", "interpret_as_qtype not reversed")(replace_call_by_arg("interpret_as_qtype", "reversed"))
+mut("or-decode-samples", ["C18"], "qlasskit/bqm.py", "decode_samples not reversed")(drop_rev("decode_samples"))
+mut("or-fill-front", ["C01", "C09"], "qlasskit/types/qtype.py", "fill pads at the front")(replace_expr("Qtype.fill", "v[1] + (cls.BIT_SIZE - len(v[1])) * [False]", "(cls.BIT_SIZE - len(v[1])) * [False] + v[1]"))
+mut("or-b2l-endpad", ["C09"], "qlasskit/types/qtype.py", "bin_to_bool_list pads at the end")(replace_expr("bin_to_bool_list", "[False] * (bit_size - len(s)) + s", "s + [False] * (bit_size - len(s))"))
+mut("or-getsize-flat", ["C05", "C09"], "qlasskit/types/__init__.py", "_getsize does not recurse")(replace_expr("interpret_as_qtype._getsize", "_getsize(x)", "getattr(x, 'BIT_SIZE', 1)"))
+
+# ---- A3 rewriting
+mut("rw-obvious-arity", ["C04"], "qlasskit/boolopt/exp_transformers.py", "x & ~x rule without arity guard")(
+    lambda t: rewrite_in(t, "remove_obvious_expr.visit_And", lambda n: isinstance(n, ast.BoolOp) and isinstance(n.op, ast.And) and norm(n.values[0]) == "len(expr.args) == 2", lambda n: n.values[1] if len(n.values) == 2 else ast.BoolOp(op=ast.And(), values=n.values[1:]))
+)
+mut("rw-or2and-nodescend", ["C02", "C04"], "qlasskit/boolopt/exp_transformers.py", "binary Or returned un-descended")(replace_expr("transform_or2and.visit_Or", "super().visit_Or(expr)", "expr"))
+mut("rw-rebuild-head", ["C04"], "qlasskit/boolopt/sympytransformer.py", "Or rebuilt as And")(replace_expr("SympyTransformer.visit_Or", "Or(*[self.visit(a) for a in e.args])", "And(*[self.visit(a) for a in e.args])"))
+mut("rw-cse-drop", ["C04"], "qlasskit/boolopt/bool_optimizer.py", "CSE definitions dropped")(replace_expr("apply_cse", "repl + list(zip(lsts[0], red))", "list(zip(lsts[0], red))"))
+mut("rw-ite-swap", ["C04"], "qlasskit/boolopt/exp_transformers.py", "ITE branches swapped")(
+    lambda t: replace_expr("remove_ITE.visit_ITE", "And(c, self.visit(expr.args[1]))", "And(c, self.visit(expr.args[2]))")(t) and replace_expr("remove_ITE.visit_ITE", "And(Not(c), self.visit(expr.args[2]))", "And(Not(c), self.visit(expr.args[1]))")(t)
+)
+mut("rw-demorgan-not", ["C04"], "qlasskit/boolopt/exp_transformers.py", "De Morgan without the inner negation")(replace_expr("transform_or2and.visit_Or", "Not(self.visit(e))", "self.visit(e)"))
+mut("rw-or2xor-arity", ["C04"], "qlasskit/boolopt/exp_transformers.py", "xnor pattern without arity guards")(
+    lambda t: rewrite_in(t, "transform_or2xor.visit_Or", lambda n: isinstance(n, ast.BoolOp) and isinstance(n.op, ast.And) and any(norm(v) == "len(expr.args[0].args) == 2" for v in n.values), lambda n: ast.BoolOp(op=ast.And(), values=[v for v in n.values if not norm(v).startswith("len(expr.args[")]))
+)
+mut("rw-merge-subs", ["C04"], "qlasskit/boolopt/bool_optimizer.py", "inlining by sequential subs")(replace_expr("merge_expressions", "e.xreplace(emap)", "e.subs(emap)"))
+mut("rw-callsite-subs", ["C07"], "qlasskit/ast2logic/t_expression.py", "call-site binding by sequential subs")(replace_expr("translate_expression", "e.xreplace(subs)", "e.subs(subs)"))
+mut("rw-bind-subs", ["C07"], "qlasskit/ast2logic/env.py", "callee inlining by sequential subs")(replace_expr("Env.bind_function", "e.xreplace(d_exp)", "e.subs(d_exp)"))
+
+
+@mut("rw-profile-noite", ["C04", "C02"], "qlasskit/boolopt/bool_optimizer.py", "fastOptimizer without remove_ITE")
+def _m_noite(tree):
+    for s in tree.body:
+        if isinstance(s, ast.Assign) and norm(s.targets[0]) == "fastOptimizer":
+            lst = s.value.args[0]
+            before = len(lst.elts)
+            lst.elts = [e for e in lst.elts if norm(e) != "remove_ITE()"]
+            return before - len(lst.elts)
+    return 0
+
+
+@mut("rw-profile-order", ["C04", "C02"], "qlasskit/boolopt/bool_optimizer.py", "transform_or2and before remove_ITE")
+def _m_order(tree):
+    for s in tree.body:
+        if isinstance(s, ast.Assign) and norm(s.targets[0]) == "defaultOptimizer":
+            lst = s.value.args[0]
+            names = [norm(e) for e in lst.elts]
+            i, j = names.index("remove_ITE()"), names.index("transform_or2and()")
+            lst.elts[i], lst.elts[j] = lst.elts[j], lst.elts[i]
+            return 1
+    return 0
+
+
+# ---- A4 dispatch / tables
+mut("dp-te-else", ["C01"], "qlasskit/ast2logic/t_expression.py", "unknown expressions returned instead of rejected")(
+    lambda t: rewrite_in(t, "translate_expression", lambda n: isinstance(n, ast.Raise) and norm(n) == "raise exceptions.ExpressionNotHandledException(expr)" , lambda n: parse_stmt("return (bool, expr)"), limit=99)
+)
+mut("dp-fold-op", ["C01"], "qlasskit/ast2ast/constantfolder.py", "ast.Add folded with operator.sub")(
+    lambda t: rewrite_in(t, "ConstantFolder.visit_BinOp", lambda n: isinstance(n, ast.Attribute) and norm(n) == "operator.add", lambda n: parse_expr("operator.sub"))
+)
+mut("dp-cmp-table", ["C01"], "qlasskit/ast2logic/t_expression.py", "(ast.Lt, 'lte')")(
+    lambda t: rewrite_in(t, "translate_expression", lambda n: isinstance(n, ast.Tuple) and norm(n) == "(ast.Lt, 'lt')", lambda n: parse_expr("(ast.Lt, 'lte')"))
+)
+mut("dp-any-and", ["C01"], "qlasskit/ast2ast/astrewriter.py", "any expanded with and")(
+    lambda t: rewrite_in(t, "ASTRewriter", lambda n: isinstance(n, ast.IfExp) and norm(n.test) == "node.func.id == 'any'", lambda n: parse_expr("ast.And() if node.func.id == 'any' else ast.Or()"))
+)
+mut("dp-for-else", ["C01"], "qlasskit/ast2ast/astrewriter.py", "for ... else silently dropped")(
+    lambda t: rewrite_in(t, "ASTRewriter.visit_For", lambda n: isinstance(n, ast.If) and norm(n.test) == "node.orelse", lambda n: ast.Pass())
+)
+mut("dp-dec-cx", ["C11"], "qlasskit/decompiler/decompiler.py", "decompiler without a CX rule")(
+    lambda t: rewrite_in(t, "Decompiler", lambda n: isinstance(n, ast.If) and norm(n.test) == "isinstance(g, gates.CX)", lambda n: n.orelse[0])
+)
+mut("dp-dec-overwrite", ["C11"], "qlasskit/decompiler/decompiler.py", "CX overwrites instead of xor-accumulating")(
+    lambda t: rewrite_in(t, "Decompiler", lambda n: isinstance(n, ast.Call) and norm(n) == "Xor(exps[wn[0]], exps[wn[1]])", lambda n: parse_expr("exps[wn[0]]"))
+)
+mut("dp-dec-entry", ["C11"], "qlasskit/decompiler/decompiler.py", "CX reads the entry symbol of its control")(
+    lambda t: rewrite_in(t, "Decompiler", lambda n: isinstance(n, ast.Call) and norm(n) == "Xor(exps[wn[0]], exps[wn[1]])", lambda n: parse_expr("Xor(wn[0], exps[wn[1]])"))
+)
+mut("dp-sympy-cnot", ["C13"], "qlasskit/qcircuit/exporter_sympy.py", "CNOT(w[1], w[0])")(replace_expr("SympyExporter.export", "CNOT(w[0], w[1])", "CNOT(w[1], w[0])"))
+mut("dp-qiskit-rev", ["C13"], "qlasskit/qcircuit/exporter_qiskit.py", "gates exported in reverse")(replace_expr("QiskitExporter.export", "_selfqc.gates", "reversed(_selfqc.gates)"))
+mut("dp-cirq-computed", ["C13"], "qlasskit/qcircuit/exporter_cirq.py", "cirq exporter walks gates_computed")(replace_expr("CirqExporter.export", "_selfqc.gates", "_selfqc.gates_computed"))
+mut("dp-qasm-formals", ["C13"], "qlasskit/qcircuit/exporter_qasm.py", "QASM formals from the name map")(
+    lambda t: rewrite_in(t, "QasmExporter.export_v3", lambda n: isinstance(n, ast.GeneratorExp) and "get_key_by_index(i)" in norm(n), lambda n: parse_expr("_selfqc.qubit_map.keys()")) and rewrite_in(t, "QasmExporter.export_v2", lambda n: isinstance(n, ast.GeneratorExp) and "get_key_by_index(i)" in norm(n), lambda n: parse_expr("_selfqc.qubit_map.keys()"))
+)
+mut("dp-compile-else", ["C02"], "qlasskit/compiler/internalcompiler.py", "unknown heads compiled to qubit 0")(replace_stmt("InternalCompiler.compile_expr", "raise CompilerException(expr)", "return 0"))
+
+# ---- A5 paths
+mut("mp-unc-forward", ["C03"], "qlasskit/qcircuit/qcircuitenhanced.py", "uncompute replays forward")(replace_call_by_arg("QCircuitEnhanced.uncompute", "reversed"))
+mut("mp-uncall-forward", ["C03", "C06"], "qlasskit/qcircuit/qcircuitenhanced.py", "uncompute_all replays forward")(replace_call_by_arg("QCircuitEnhanced.uncompute_all", "reversed"))
+mut("mp-splice-forward", ["C12"], "qlasskit/decompiler/decopt.py", "sections spliced front to back")(replace_call_by_arg("circuit_boolean_optimizer", "reversed"))
+mut("mp-nokeep", ["C03", "C06"], "qlasskit/compiler/internalcompiler.py", "final replay without keep")(replace_expr("InternalCompiler.compile", "qc.uncompute_all(keep=keep)", "qc.uncompute_all()"))
+mut("mp-keep-inputs", ["C03", "C06"], "qlasskit/compiler/internalcompiler.py", "keep resolved from input names too")(
+    replace_expr("InternalCompiler.compile", "[qc[r] for r in filter(lambda r: r in qc, returns.bitvec)]", "[qc[r] for r in filter(lambda r: r in qc, self.input_symbols + returns.bitvec)]")
+)
+mut("mp-cache-stale", ["C02"], "qlasskit/compiler/internalcompiler.py", "uncomputed qubits stay in the expression cache")(replace_expr("InternalCompiler.compile", "self.expqmap.remove(qc.uncompute())", "qc.uncompute()"))
+mut("mp-nosymreg", ["C02"], "qlasskit/compiler/internalcompiler.py", "result qubit not registered for its symbol")(replace_stmt("InternalCompiler.compile", "self.expqmap[sym] = iret", ""))
+mut("mp-splice-unguarded", ["C12"], "qlasskit/decompiler/decopt.py", "splice without the size/qubit guards")(
+    lambda t: rewrite_in(t, "circuit_boolean_optimizer", lambda n: isinstance(n, ast.If) and "len(qc_sec.gates) > len(section.gates)" in norm(n.test), lambda n: ast.Pass())
+)
+mut("mp-bind-append", ["C08"], "qlasskit/qlassfun.py", "injected assignments appended after the body")(replace_expr("UnboundQlassf.bind", "new_body + fun_ast.body[0].body", "fun_ast.body[0].body + new_body"))
+mut("mp-symbols-sorted", ["C12"], "qlasskit/decompiler/decopt.py", "re-synthesis symbols sorted by name")(replace_expr("circuit_boolean_optimizer", "list(qc.qubit_map.keys())", "sorted(qc.qubit_map.keys())"))
+mut("mp-append-noremap", ["C14"], "qlasskit/qcircuit/qcircuit.py", "appended gates keep their own wires")(replace_expr("QCircuit.append_circuit", "ogates.append((g, wn, p))", "ogates.append((g, w, p))"))
+mut("mp-outq-rev", ["C05"], "qlasskit/qlassfun.py", "output qubits in reverse bit order")(replace_expr("QlassF.output_qubits", "self.returns.bitvec", "reversed(self.returns.bitvec)"))
+mut("mp-dest-control", ["C02", "C06"], "qlasskit/compiler/internalcompiler.py", "destination not removed from its own controls")(
+    lambda t: rewrite_in(t, "InternalCompiler.compile_and", lambda n: isinstance(n, ast.If) and norm(n.test) == "dest in erets", lambda n: ast.Pass())
+)
+mut("mp-cachehit-nodest", ["C02"], "qlasskit/compiler/internalcompiler.py", "cache hit ignores the destination")(
+    lambda t: rewrite_in(t, "InternalCompiler.compile_expr", lambda n: isinstance(n, ast.If) and "dest is None or dest ==" in norm(n.test), lambda n: n.body[0])
+)
+mut("mp-if-reread", ["C01"], "qlasskit/ast2ast/astrewriter.py", "if-rewrite tests the variable again instead of the stored condition")(
+    lambda t: rewrite_in(t, "ASTRewriter.visit_If", lambda n: isinstance(n, ast.keyword) and n.arg == "test" and norm(n.value) == "ast.Name(id=test_name)", lambda n: ast.keyword(arg="test", value=parse_expr("node.test")), limit=1)
+)
+mut("mp-dimacs-dedup", ["C17"], "qlasskit/tools/py2bexp.py", "clauses de-duplicated by variable set")(
+    lambda t: rewrite_in(t, "convert_to_dimacs", lambda n: isinstance(n, ast.Assign) and norm(n.targets[0]) == "num_vars", lambda n: [parse_stmt("dimacs_clauses = [next(g) for _, g in __import__('itertools').groupby(dimacs_clauses, key=lambda c: [abs(x) for x in c])]"), n])
+)
+mut("mp-bexp-noinline", ["C17"], "qlasskit/tools/py2bexp.py", "py2bexp combines un-inlined definitions")(replace_expr("convert_to_bool_expression", "merge_expressions(qlassf.expressions)", "qlassf.expressions"))
+mut("mp-bqm-noinline", ["C18"], "qlasskit/bqm.py", "to_bqm without inlining")(replace_stmt("to_bqm", "exprs = merge_expressions(exprs)", ""))
+mut("mp-bqm-drop", ["C18"], "qlasskit/bqm.py", "And fold skips an operand")(replace_expr("SympyToBQM.visit", "And(*e.args[1:])", "And(*e.args[2:])"))
+
+# ---- A6 typestate
+mut("ts-dj-nox", ["C16"], "qlasskit/algorithms/deutschjozsa.py", "DJ output qubit not flipped")(replace_stmt("DeutschJozsa.__init__", "self._qcircuit.x(self._f_circuit['_ret'])", ""))
+mut("ts-bv-zh", ["C16"], "qlasskit/algorithms/bernsteinvazirani.py", "BV prepares z then h")(
+    lambda t: replace_stmt("BernsteinVazirani.__init__", "self._qcircuit.h(self._f_circuit['_ret'])", "self._qcircuit.y(self._f_circuit['_ret'])")(t)
+)
+mut("ts-simon-noclose", ["C16"], "qlasskit/algorithms/simon.py", "Simon without the closing Hadamards")(
+    lambda t: rewrite_in(t, "Simon.__init__", lambda n: isinstance(n, ast.For) and n.lineno > 40 and "self._qcircuit.h(i)" in norm(n), lambda n: ast.Pass())
+)
+mut("ts-grover-nophase", ["C15"], "qlasskit/algorithms/grover.py", "phase qubit not prepared")(replace_stmt("Grover.__init__", "self._qcircuit.h(oracle_qc['_ret_phased'])", ""))
+mut("ts-grover-diffret", ["C15"], "qlasskit/algorithms/grover.py", "diffuser acts on the result qubit")(replace_expr("Grover.__init__", "diffuser_qc.mctrl(gates.Z(), list(range(self.search_space_size)), oracle_qc['_ret_phased'])", "diffuser_qc.mctrl(gates.Z(), list(range(self.search_space_size)), oracle_qc['_ret'])"))
+mut("ts-dec-nosentinel", ["C11"], "qlasskit/decompiler/decompiler.py", "last section never flushed")(replace_expr("Decompiler.decompile", "qc.gates + [(None, [0], None)]", "qc.gates"))
+
+# ---- A7 siblings
+mut("sb-lte", ["C01"], "qlasskit/types/qint.py", "lte = not lt")(replace_expr("QintImp.lte", "Not(QintImp.gt(tleft, tcomp)[1])", "Not(QintImp.lt(tleft, tcomp)[1])"))
+mut("sb-lt-noeq", ["C01"], "qlasskit/types/qint.py", "lt without the eq conjunct")(replace_expr("QintImp.lt", "And(Not(QintImp.gt(tleft, tcomp)[1]), Not(QintImp.eq(tleft, tcomp)[1]))", "Not(QintImp.gt(tleft, tcomp)[1])"))
+mut("sb-fold-id", ["C01"], "qlasskit/types/qint.py", "eq folded from false")(replace_stmt("QintImp.eq", "ex = true", "ex = false"))
+mut("sb-widen-recv", ["C01"], "qlasskit/types/qint.py", "narrower operand filled with its own type")(replace_expr("QintImp.add", "tleft_e[0].fill(tright_e)", "tright_e[0].fill(tright_e)"))
+mut("sb-gt-mirror", ["C01"], "qlasskit/types/qint.py", "gt treats right excess like left excess")(
+    lambda t: rewrite_in(t, "QintImp.gt", lambda n: isinstance(n, ast.Call) and norm(n) == "And(ex, Not(x))", lambda n: parse_expr("Or(ex, x)"))
+)
+mut("sb-const", ["C09"], "qlasskit/types/qint.py", "Qint4.BIT_SIZE = 5")(replace_stmt("Qint4", "BIT_SIZE = 4", "BIT_SIZE = 5"))
+mut("sb-iqft-angle", ["C14"], "qlasskit/qcircuit/qcircuit.py", "iqft angle not negated")(replace_expr("QCircuit.iqft", "-2 * math.pi / 2 ** (j - i + 1)", "2 * math.pi / 2 ** (j - i + 1)"))
+mut("sb-full-adder", ["C01"], "qlasskit/types/__init__.py", "full adder carry drops a term")(replace_expr("_full_adder", "a & b ^ (a ^ b) & c", "a & b ^ a & c"))
+mut("sb-aug-swap", ["C01"], "qlasskit/ast2ast/astrewriter.py", "a op= b expanded as b op a")(replace_expr("ASTRewriter.visit_AugAssign", "ast.BinOp(left=node.target, op=node.op, right=node.value)", "ast.BinOp(left=node.value, op=node.op, right=node.target)"))
+
+# ---- benign twins: (id, description, edit(root_dir) -> None)
+B = []
+
+
+def twin(bid, desc):
+    def deco(fn):
+        B.append((bid, desc, fn))
+        return fn
+    return deco
+
+
+def _all_py(root):
+    for dp, dn, fn in os.walk(os.path.join(root, "qlasskit")):
+        for f in fn:
+            if f.endswith(".py"):
+                yield os.path.join(dp, f)
+
+
+@twin("b-unparse", "whole-repo ast.unparse round trip (formatting, comments and line numbers change)")
+def _b_unparse(root):
+    for p in _all_py(root):
+        src = open(p).read()
+        open(p, "w").write(ast.unparse(ast.parse(src)) + "\n")
+
+
+@twin("b-logging", "a logging call inserted at the top of every function")
+def _b_logging(root):
+    for p in _all_py(root):
+        tree = ast.parse(open(p).read())
+        for n in ast.walk(tree):
+            if isinstance(n, ast.FunctionDef) and not any(norm(d).endswith("property") for d in n.decorator_list):
+                ins = 1 if (n.body and isinstance(n.body[0], ast.Expr) and isinstance(n.body[0].value, ast.Constant)) else 0
+                n.body.insert(ins, parse_stmt(f"_ = None  # trace {n.name}"))
+        open(p, "w").write(ast.unparse(tree) + "\n")
+
+
+@twin("b-docstrings", "docstrings added to functions that have none, blank module docstrings")
+def _b_doc(root):
+    for p in _all_py(root):
+        tree = ast.parse(open(p).read())
+        for n in ast.walk(tree):
+            if isinstance(n, ast.FunctionDef) and not (n.body and isinstance(n.body[0], ast.Expr) and isinstance(n.body[0].value, ast.Constant)):
+                n.body.insert(0, ast.Expr(value=ast.Constant(value=f"{n.name}: documented")))
+        open(p, "w").write(ast.unparse(tree) + "\n")
+
+
+@twin("b-dj-hz", "Deutsch-Jozsa prepares the output qubit with h;z instead of x;h")
+def _b_dj(root):
+    p = os.path.join(root, "qlasskit/algorithms/deutschjozsa.py")
+    tree = ast.parse(open(p).read())
+    a = replace_stmt("DeutschJozsa.__init__", "self._qcircuit.x(self._f_circuit['_ret'])", "self._qcircuit.h(self._f_circuit['_ret'])")(tree)
+    fn = find_def(tree, "DeutschJozsa.__init__")
+    hs = [s for s in fn.body if norm(s) == "self._qcircuit.h(self._f_circuit['_ret'])"]
+    hs[1].value.func.attr = "z"
+    open(p, "w").write(ast.unparse(tree) + "\n")
+
+
+@twin("b-reversed-call", "x[::-1] written as list(reversed(x)) in the Qint codecs")
+def _b_rev(root):
+    p = os.path.join(root, "qlasskit/types/qint.py")
+    tree = ast.parse(open(p).read())
+    for path in ("QintImp.from_bool", "QintImp.to_bool", "QintImp.const"):
+        rewrite_in(tree, path, is_rev_slice, lambda n: ast.Call(func=ast.Name(id="list", ctx=ast.Load()), args=[ast.Call(func=ast.Name(id="reversed", ctx=ast.Load()), args=[n.value], keywords=[])], keywords=[]))
+    open(p, "w").write(ast.unparse(tree) + "\n")
+
+
+@twin("b-new-helper", "an unused private helper function and an unused import added to several modules")
+def _b_helper(root):
+    for rel in ("qlasskit/types/qint.py", "qlasskit/compiler/internalcompiler.py", "qlasskit/qcircuit/qcircuit.py", "qlasskit/boolopt/exp_transformers.py"):
+        p = os.path.join(root, rel)
+        src = open(p).read()
+        open(p, "w").write(src + "\n\ndef _unused_helper(x):\n    return x\n")
+
+
+# --------------------------------------------------------------------------------------------- runner
+
+
+def _scratch_copy() -> str:
+    d = tempfile.mkdtemp(prefix="qv_self_")
+    shutil.copytree(os.path.join(repo_root(), "qlasskit"), os.path.join(d, "qlasskit"), ignore=shutil.ignore_patterns("__pycache__"))
+    return d
+
+
+def _run_check(pid: str, root: str) -> Tuple[int, List[str], str]:
+    env = dict(os.environ, QV_REPO=root, PYTHONPATH=HERE, PYTHONDONTWRITEBYTECODE="1")
+    r = subprocess.run([sys.executable, "-m", "qv.cli", pid, "--no-evidence", "--tier", "quick"], cwd=HERE, env=env, capture_output=True, text=True)
+    keys = []
+    for line in r.stdout.splitlines():
+        if ": rule " in line:
+            # "<where>: <construct>: rule R [role] - ..."
+            try:
+                rest = line.split(": rule ", 1)[1]
+                rule = rest.split(" ", 1)[0]
+                role = rest.split("[", 1)[1].split("]", 1)[0]
+                construct = line.split(": rule ", 1)[0].rsplit(": ", 1)[1]
+                keys.append(f"{rule}|{construct}|{role}")
+            except Exception:
+                keys.append(line[:100])
+    return r.returncode, keys, r.stdout[-600:]
+
+
+def run_for_property(pid: str, ctx) -> Dict:
+    mutants = [m for m in M if pid in m[1]]
+    base_rc, base_keys, _ = _run_check(pid, repo_root())
+    jobs = []
+    dirs = []
+    results = {"seeded": 0, "caught": 0, "benign": 0, "silent": 0, "missed": [], "noisy": [], "not_applied": []}
+
+    def do_mut(m):
+        mid, props, rel, desc, fn = m
+        d = _scratch_copy()
+        dirs.append(d)
+        p = os.path.join(d, rel)
+        tree = ast.parse(open(p).read())
+        try:
+            n = fn(tree)
+        except KeyError:
+            n = 0
+        if not n:
+            return ("na", mid, desc)
+        ast.fix_missing_locations(tree)
+        open(p, "w").write(ast.unparse(tree) + "\n")
+        rc, keys, out = _run_check(pid, d)
+        new = [k for k in keys if k not in base_keys]
+        return ("mut", mid, desc, rc, new, out)
+
+    def do_twin(b):
+        bid, desc, fn = b
+        d = _scratch_copy()
+        dirs.append(d)
+        fn(d)
+        rc, keys, out = _run_check(pid, d)
+        new = [k for k in keys if k not in base_keys]
+        return ("twin", bid, desc, rc, new, out)
+
+    try:
+        with ThreadPoolExecutor(max_workers=16) as ex:
+            futs = [ex.submit(do_mut, m) for m in mutants] + [ex.submit(do_twin, b) for b in B]
+            outs = [f.result() for f in futs]
+    finally:
+        for d in dirs:
+            shutil.rmtree(d, ignore_errors=True)
+    problems = []
+    for o in outs:
+        if o[0] == "na":
+            results["not_applied"].append(o[1])
+            problems.append(f"seeded edit {o[1]} ({o[2]}) could not be applied to the current tree: its anchor construct changed")
+        elif o[0] == "mut":
+            results["seeded"] += 1
+            if o[3] == 1 and o[4]:
+                results["caught"] += 1
+            else:
+                results["missed"].append(o[1])
+                problems.append(f"seeded edit {o[1]} ({o[2]}) was NOT reported by {pid} (exit {o[3]}): {o[5][-200:]}")
+        else:
+            results["benign"] += 1
+            if o[3] == base_rc and not o[4]:
+                results["silent"] += 1
+            else:
+                results["noisy"].append(o[1])
+                problems.append(f"benign twin {o[1]} ({o[2]}) changed the verdict of {pid} (exit {o[3]}, new findings {o[4][:3]}): {o[5][-300:]}")
+    if problems:
+        raise AnchorError(f"{pid}.selfcheck", "; ".join(problems)[:1500])
+    return results
